@@ -236,6 +236,7 @@ def conclude(a, cfg, tier, seed, results, native, t0):
     # ---- replay of counter-models on the real code
     confirmed = []
     unconfirmed = []
+    unobservable = []
     for v in violations:
         c = reg.by_id.get(v["contract"])
         v["replayed"] = None
@@ -250,6 +251,11 @@ def conclude(a, cfg, tier, seed, results, native, t0):
                 v["native"] = {"crash": str(e)}
         if v["replayed"]:
             confirmed.append(v)
+        elif c is not None and getattr(c, "observable_only", False) and v["replayed"] is False:
+            # the clause is stricter than what can be observed (e.g. a regex that differs from the reference only on
+            # words another guard rejects anyway): the counterexample was replayed and the real code behaves as the
+            # property demands -> recorded, not reported
+            unobservable.append({"obligation": v["name"], "inputs": v.get("inputs"), "native": v.get("native")})
         elif not v.get("candidate"):
             unconfirmed.append(v)
 
@@ -406,6 +412,7 @@ def conclude(a, cfg, tier, seed, results, native, t0):
         "explanation": cfg.get("explanation", ""),
         "inlined_callees": sorted({x for r in results for x in r.get("inlined", [])}),
         "faults": faults,
+        "unobservable_deviations": unobservable,
     }
     ev = {"property_id": prop, "tier": tier, "seed": seed, "level": cfg["level"], "coverage": coverage,
           "assumptions": sorted(assumptions) + cfg.get("assumption_notes", []), "wall_s": round(wall, 2),
